@@ -56,6 +56,35 @@ def run(ctx):
   retained_side(ctx)
   melody_range(ctx)
   pitfall_sites(ctx)
+  deep_copies(ctx)
+
+
+def deep_copies(ctx):
+  """Location-independent: a deep copy shares nothing mutable with its source.  In every __deepcopy__ of the event-sequence
+  classes, a member of self may be handed to the new object through copy.deepcopy (or a fresh list), never through copy.copy or
+  as it is: a shallow copy of an event sequence has its own start / end step but the *same* event list, so a later edit of one
+  object changes the other's events and leaves its length and step range inconsistent."""
+  for rel in (EL, ML, CL, DL, LS, PL, PR):
+    mi = ctx.P.module(rel[len('note_seq/'):-3])
+    for q, fi in sorted(mi.all_functions.items()):
+      if not q.endswith('.__deepcopy__'):
+        continue
+      cons = '%s copies every mutable member deeply' % q
+      shallow = [c for c in U.calls_in(fi.node) if dotted(c.func) in ('copy.copy', 'copy') and c.args and norm_text(c.args[0]).startswith('self.')]
+      bare = []
+      for c in U.calls_in(fi.node):
+        if dotted(c.func) in ('copy.deepcopy', 'deepcopy', 'list', 'tuple', 'copy.copy', 'copy'):
+          continue      # the copying call itself
+        for a in list(c.args) + [k.value for k in c.keywords]:
+          if isinstance(a, ast.Attribute) and norm_text(a) in ('self._events', 'self._melody', 'self._chords'):
+            bare.append(a)
+      if shallow or bare:
+        x = (shallow or bare)[0]
+        ctx.ob('COPY/deepcopy-is-deep', fi, x, False, '%s hands %s to the copy %s: the copy and its source share one event list, so an in-place edit of either (append, set_length, truncation) '
+               'changes the other, whose length no longer matches its step range' % (q, norm_text(x.args[0]) if shallow else norm_text(x), 'through copy.copy' if shallow else 'as it is'),
+               construct=cons, definite=True)
+      else:
+        ctx.ob('COPY/deepcopy-is-deep', fi, fi.node, True, 'members are copied with copy.deepcopy', construct=cons)
 
 
 def pitfall_sites(ctx):
